@@ -47,6 +47,11 @@ def finding_key(req, obs, detail):
         # signature with its non_default_params); the oracle gives this detail only when the verdict is exactly the one
         # of the first declaration's default arguments and passes every other judgement under that reading
         return "redeclared default arguments: only the first declaration's default values count"
+    if (detail or "").startswith("FAIL:redeclared-template:"):
+        # one defect (two declarations of one function template whose parameter types mention a template parameter have
+        # different param_types - each registers its own TypeId for T - and are not combined); the oracle gives this
+        # detail only for an ambiguity that names a redeclared template twice and is right once it is named once
+        return "redeclared function template: every declaration is an overload of its own"
     f = req.split("\t")
     if f[0] == "C16.resolve" and len(f) in (3, 4):
         # the finding is about the candidate *set* and the arguments, not about one declaration order
@@ -269,6 +274,7 @@ SPEC = {
         # a function declared more than once with other default arguments: what the code does (for all units), and the
         # witness that this is order dependent (negation of the property for the declarations of one function)
         "first_declaration_fixes_the_defaults", "redeclared_defaults_are_order_dependent",
+        "redeclared_template_is_a_second_overload",
         # the source text of the transcribed routines, re-extracted each run
         "resolve_shape_as_modelled", "resolution_reads_no_call_history", "resolve_source_as_transcribed"]],
     "harness": "c16",
